@@ -196,6 +196,55 @@ class Lang(Val):
         return []
 
 
+class LangFixed(Val):
+    """with-language value with CONCRETE (possibly multi-byte UTF-8) contents; encode direction only"""
+
+    def __init__(self, tagname, lang, text):
+        self.tagname, self.lang, self.text = tagname, lang, text
+
+    def alloc(self, c):
+        pass
+
+    def body(self):
+        l, t = list(self.lang.encode('utf-8')), list(self.text.encode('utf-8'))
+        return be16(len(l)) + l + be16(len(t)) + t
+
+    def rust(self):
+        f = 'text' if self.tagname == 'textWithLanguage' else 'name'
+        v = 'TextWithLanguage' if self.tagname == 'textWithLanguage' else 'NameWithLanguage'
+        def lit(t):
+            return 'ascii_str(&[%s])' % ', '.join('0x%02x' % c for c in t.encode('utf-8'))  # valid UTF-8 by construction
+        return 'IppValue::%s { language: %s, %s: %s }' % (v, lit(self.lang), f, lit(self.text))
+
+    def check(self, v):
+        return 'assert!(true)'
+
+    def canonical_assumes(self):
+        return []
+
+
+class StrFixed(Val):
+    """string value with concrete (multi-byte UTF-8) contents; encode direction only"""
+
+    def __init__(self, tagname, text):
+        self.tagname, self.text = tagname, text
+
+    def alloc(self, c):
+        pass
+
+    def body(self):
+        return list(self.text.encode('utf-8'))
+
+    def rust(self):
+        return 'IppValue::%s(ascii_str(&[%s]))' % (STRING_KINDS[self.tagname], ', '.join('0x%02x' % c for c in self.text.encode('utf-8')))
+
+    def check(self, v):
+        return 'assert!(true)'
+
+    def canonical_assumes(self):
+        return []
+
+
 class OutOfBand(Val):
     """no-value / unknown / unsupported and unregistered tags: the library keeps the raw octets"""
 
@@ -334,11 +383,16 @@ class Shape:
         ordered = ops[:1] + rest
         results = []
         perm_sets = [list(itertools.permutations(range(len(attrs)))) for _, (_, attrs) in ordered]
+        PINNED = ['attributes-charset', 'attributes-natural-language', 'printer-uri', 'job-uri', 'job-id']  # RFC 8011 4.1.4 / 4.1.5
         for combo in itertools.product(*perm_sets):
             out = xs(range(8))
             for (gi, (tag, attrs)), perm in zip(ordered, combo):
                 out.append(tag)
-                for ai in perm:
+                order = list(perm)
+                if tag == G['operation']:
+                    pinned = [ai for name in PINNED for ai in order if attrs[ai].name == name]
+                    order = pinned + [ai for ai in order if ai not in pinned]
+                for ai in order:
                     out += attrs[ai].wire()
             out.append(G['end'])
             results.append(out)
@@ -401,6 +455,8 @@ class Shape:
                 return '{' + ', '.join('%s: [%s]' % (n, ', '.join(dv(q) for q in vs)) for n, vs in v.members) + '}'
             if isinstance(v, OutOfBand):
                 return 'tag0x%02x(%dB)' % (v.tagbyte, v.n)
+            if isinstance(v, (LangFixed, StrFixed)):
+                return '%s(fixed %r)' % (v.tagname, v.text)
             if isinstance(v, Str):
                 return '%s(%dB%s)' % (v.tagname, v.n, ' raw' if v.raw else '')
             if isinstance(v, Lang):
@@ -448,6 +504,13 @@ def catalogue(seed=0):
     add('l_lang00', [(P, [Attr(n1, [Lang('textWithLanguage', 0, 0)])])], tags={'L', 'lang'})
     add('l_rawtext', [(P, [Attr(n1, [Str('textWithoutLanguage', 2, raw=True)])])], tags={'RAW'},
         note='text bytes unconstrained (incl. invalid UTF-8, Latin-1): must be accepted; contents compared only when 7-bit')
+    # ENC: concrete multi-byte UTF-8 text (encode direction only: octet counts vs character counts)
+    add('e_namelang_utf8', [(P, [Attr(n1, [LangFixed('nameWithLanguage', 'de', 'B\u00fcro'), Fixed('integer')])])], tags={'ENC'},
+        note='nameWithLanguage with a 2-byte character, followed by an integer in the same set (so a wrong length shifts visible bytes)')
+    add('e_textlang_utf8', [(P, [Attr(n1, [LangFixed('textWithLanguage', 'fr', '\u00e9t\u00e9')])])], tags={'ENC'})
+    add('e_name_utf8', [(P, [Attr(n1, [StrFixed('nameWithoutLanguage', '\u65e5\u672c'), Fixed('boolean')])])], tags={'ENC'}, note='3-byte characters')
+    add('g_op_joburi', [(O, [Attr('job-uri', [Str('uri', 3)]), Attr(n2, [Fixed('integer')])])], tags={'G', 'ORD'},
+        note='job-uri (an operation target attribute) and one more operation attribute')
     # A: sets
     add('a2_int', [(P, [Attr(n1, [Fixed('integer'), Fixed('integer')])])], tags={'A'})
     add('a2_kw', [(P, [Attr(n1, [Str('keyword', 2), Str('keyword', 1)])])], tags={'A'})
